@@ -4,7 +4,7 @@ package serverinterceptors
 
 // C09 — UnarySheddingInterceptor integration (DESIGN.md §3 C09): same accounting
 // oracle as for the HTTP middleware, with a scripted Shedder. Which handler errors
-// map to Fail is recorded, not asserted.
+// map to Fail is recorded, not asserted; identical handler outcome => identical report is.
 
 import (
 	"context"
@@ -79,6 +79,8 @@ func TestVerifC09SheddingInterceptor(t *testing.T) {
 	n := vk.N(3000, 60000)
 	r := m.Rand("rpc")
 	mapping := map[string]int64{}
+	verdict := map[string]string{} // handler outcome -> first observed report
+	prev := "none"
 	var rejected, admitted, panics int64
 	for idx := 1; idx <= n; idx++ {
 		oc := outcomes[r.Intn(len(outcomes))]
@@ -143,8 +145,17 @@ func TestVerifC09SheddingInterceptor(t *testing.T) {
 				out = "fail"
 			}
 			mapping[fmt.Sprintf("admitted_%s_%s", oc.name, out)]++
+			// the report must be a function of the request's own outcome: the same
+			// handler outcome may not be reported differently depending on earlier requests
+			if first, seen := verdict[oc.name]; !seen {
+				verdict[oc.name] = out
+			} else if first != out && sh.passes+sh.fails == 1 {
+				m.Violate("C09:rpc:report-depends-on-earlier-request", desc, "handler outcome %s was reported as %s by earlier identical requests and as %s now (previous request: %s)", oc.name, first, out, prev)
+				bad = true
+			}
 		}
 		m.Case(vk.Digest(admit, oc.name), !bad)
+		prev = desc
 		if m.WantSample() && idx%7 == 1 {
 			m.Sample(map[string]any{"scenario": desc, "allow_calls": sh.allows, "handler_runs": served, "pass": sh.passes, "fail": sh.fails, "err": fmt.Sprint(err), "panicked": panicked})
 		}
